@@ -228,7 +228,7 @@ func specs(quick bool) []yangval.Spec {
 		s.Lengths = l
 		out = append(out, s)
 	}
-	for _, ps := range [][]string{{"a"}, {"a|bc"}, {"[0-9]+"}, {"[a-c]*", ".*1.*"}, {"."}, {"a.c"}, {"(a|b)(c|1)?"}, {"é+"}} {
+	for _, ps := range [][]string{{"a"}, {"a|bc"}, {"[0-9]+"}, {"[a-c]*", ".*1.*"}, {"."}, {"a.c"}, {"(a|b)(c|1)?"}, {"é+"}, {"(ab)|(c1)"}, {"(a)|(b)c"}, {"a|(bc)"}, {"(a)(b)"}, {"^a"}, {"a$"}} {
 		s := str
 		s.Patterns = ps
 		out = append(out, s)
